@@ -302,6 +302,14 @@ def oracles (prev s : St) (impl : List (String × String)) (prevDials : Nat := 0
                    -- C03: a piece the client has not verified is announced to peers and served on request
                    ++ ((c01a.filter fun v => v.endsWith "recorded-hash-never-matched").map fun v =>
                         v.replace "C01 bit-without-verified-data" "C03 unverified-piece-offered-to-peers")
+  -- C02 (a torrent whose bytes are on disk verifies completely; padding reads as zeroes): the verifier's result has
+  -- just arrived (no bitfield before this op) and lacks a piece whose true bytes are all in the files
+  let modelBits := s.bf.getD []
+  let c02v := if prev.bf.isNone && !s.tainted && bfBits.length = modelBits.length then
+      (List.range bfBits.length).filterMap fun i =>
+        if modelBits.getD i false && !(bfBits.getD i false) && s.diskOKi i && s.cfg.padOK i then
+          some s!"C02 piece-with-true-bytes-on-disk-fails-verification piece={i}" else none
+    else []
   -- C01: a storage write must carry verified bytes
   let c01b := (commaList (get "sto")).filterMap fun c =>
     if c.startsWith "write:" && !c.endsWith ":ok" then some s!"C01 unverified-bytes-written call={c}" else none
@@ -395,7 +403,7 @@ def oracles (prev s : St) (impl : List (String × String)) (prevDials : Nat := 0
   let c10 := c10 ++ (c17.map fun v => v.replace "C17 write-cache-reservations-unbalanced" "C10 write-cache-budget-not-returned")
   -- the same event read as C18 (an IP banned for corrupt data must be on the ban list that admission consults)
   let c18 := c01d.map fun v => v.replace "C01 corrupt-sender-not-banned" "C18 banned-ip-not-recorded"
-  c01a ++ c01e ++ c01b ++ c01c ++ c01d ++ c18 ++ c06 ++ c04 ++ c10 ++ c17 ++ c19 ++ c05 ++ c13
+  c01a ++ c01e ++ c02v ++ c01b ++ c01c ++ c01d ++ c18 ++ c06 ++ c04 ++ c10 ++ c17 ++ c19 ++ c05 ++ c13
 
 /-- C04: after the final phase (restart + honest seed answering every request) the torrent must be
 complete with correct files. -/
